@@ -21,6 +21,9 @@ def _case(draw, tier):
     if kind == 0:
         # zero / forced choices only
         spec = draw(specs.sel_spec(min_nodes=3, max_nodes=6, max_opts=1))
+    elif kind == 1:
+        # branches in which a nested choice is left without options (dead ends the encoder must correct away from)
+        spec = draw(specs.dead_end_spec())
     else:
         spec = draw(specs.full_spec(max_nodes=9 if tier == 'quick' else 11, p_conn=0.25, p_dv=0.2, p_con=0.25,
                                     small_conn=True))
